@@ -1090,6 +1090,7 @@ def run_C04(ck):
         inputs.append(bytes.fromhex(hexdata) + rng.bytes(rng.range(1, 40)))
     edge = [65535, 65536, 65537, 131072] + ([] if quick else [131073, 196608, 65536 * 5 + 1])
     cases = []
+    tiny_inputs = [bytes([x]) for x in range(256)] + [bytes([rng.below(256), rng.below(256)]) for _ in range(1200 if quick else 20000)]
     def add(op, data, opt=None, rd='all', wr='all'):
         line = '%s %sin=%s rd=%s wr=%s' % (op, ('opt=%s ' % opt) if opt else '', hx(data), rd, wr)
         cases.append({'line': line, 'meta': {'op': op, 'len': len(data), 'opt': opt, 'rd': rd, 'wr': wr}, 'data': data, 'op': op, 'opt': opt})
@@ -1105,6 +1106,9 @@ def run_C04(ck):
     for n in list(range(100, 136)) + list(range(16356, 16396, 3 if quick else 1)) + [16383, 16384, 16385, 16500, 16511, 16512]:
         data = rng.bytes(n) if rng.chance(2, 3) else bytes([rng.below(256)]) * n
         add('xz_enc', data, None, rng.choice(['all', '4096', 'std:slice']), 'all')
+    # the encoder's final flush: about one two-byte input in 200 ends with the top byte of `low` at 0xFF and no carry
+    for data in tiny_inputs:
+        add('lzma_enc', data, rng.choice(['wh:%d' % len(data), 'wh:%d' % len(data), 'skip', 'wh:none']), 'all', 'all')
     for n in edge:
         data = rng.bytes(n) if n < 70000 else bytes([rng.below(256)]) * n
         for rd in ['all', '65536', '1' if n <= 65537 else '4096', '65535,2', '8192']:
@@ -1790,6 +1794,7 @@ def run_C12(ck):
             p['rt'] = d; rt.append(d)
     run_both(ck, rt)
     cases = []
+    eofc = []
     for p in probes:
         ck.note_case(p['line'], False)
         def oracle0(c):
@@ -1817,7 +1822,24 @@ def run_C12(ck):
             cases.append({'line': '%s rd=%s wr=%s wfail=%d ekind=%s' % (p['base'], p['rd'], p['wr'], k, EK[(k + 2 + len(p['base'])) % 5]), 'meta': {'op': p['op'], 'fault': 'write', 'k': k, 'of': wc}, 'inside': k < wc, 'good': good, 'op': p['op']})
         if p['op'] in ('lzma_dec', 'lzma2_dec'):
             cases.append({'line': '%s rd=%s wr=%s ffail=1' % (p['base'], p['rd'], p['wr']), 'meta': {'op': p['op'], 'fault': 'flush'}, 'inside': True, 'good': good, 'op': p['op']})
+        if p['op'] in ('lzma_dec', 'lzma2_dec', 'xz_dec') and p['rd'] != 'all' or p['op'] in ('lzma_dec', 'xz_dec'):
+            # a fault at the END-OF-INPUT probe (the fill_buf made when everything has been consumed): judged by its own oracle,
+            # the model's source does not count that call (ef=1 in the result tells that the fault was delivered)
+            for ek_ in ('other', 'eof'):
+                eofc.append({'line': '%s rd=%s wr=%s efail=1 ekind=%s' % (p['base'], p['rd'] if p['rd'] != 'all' else '64', p['wr'], ek_), 'meta': {'op': p['op'], 'fault': 'eof-probe', 'ekind': ek_}, 'good': good, 'op': p['op']})
         ck.count('op_' + p['op'])
+    rs_ = run_impl([c['line'] for c in eofc])
+    for c, r_ in zip(eofc, rs_):
+        c['r'] = parse(r_); c['r_raw'] = r_; c['m_raw'] = '(not run: the model does not count the end-of-input probe)'
+        ck.count('eof_probe_fault_delivered' if c['r'].get('ef') == '1' else 'eof_probe_never_made')
+        ck.note_case(c['line'], c['r'].get('ef') == '1')
+        v = c['r'].get('verdict')
+        if v in ('panic', 'hang', 'abort'):
+            ck.violation('oracle', 'a fault at the end-of-input probe caused a %s' % v, replay_dict(c))
+        elif c['r'].get('ef') == '1' and v == 'ok':
+            ck.violation('oracle', 'the read made to probe for the end of the input failed (%s) but the operation reported success' % c['meta']['ekind'], replay_dict(c))
+        elif not is_prefix(unhx(c['r'].get('out', '-')), c['good']):
+            ck.violation('oracle', 'sink content is not a prefix of the correct output after a fault at the end-of-input probe', replay_dict(c))
     # the streaming decoder with a failing / short-writing sink
     for s in lz:
         b = s['bytes']
@@ -2327,6 +2349,10 @@ def run_C07(ck):
         # a header announcing a huge dictionary and size in front of a short payload
         b = s['bytes']
         add('lzma_dec opt=rfh in=%s' % hx(b[:1] + b'\xff\xff\xff\xff' + struct.pack('<Q', 1 << 62) + b[13:]), 'huge_header')
+        # ... together with a (large) memory limit: the limit bounds what may be buffered, it is not a size to reserve up front
+        hb_ = b[:1] + b'\xff\xff\xff\xff' + struct.pack('<Q', 1 << 62) + b[13:]
+        add('lzma_dec opt=rfh mem=%d in=%s' % (rng.choice([1 << 28, 1 << 30, 1 << 31, (1 << 32) - 1]), hx(hb_)), 'huge_header_memlimit')
+        add('stream opt=rfh mem=%d calls=%s' % (rng.choice([1 << 28, 1 << 30, (1 << 32) - 1]), stream_calls(hb_, chunkings(rng, len(hb_), 'random'))), 'huge_header_memlimit')
     for s in l2:
         for _ in range(6):
             m = mutate_bytes(rng, s['bytes'])
